@@ -336,6 +336,10 @@ func (x *Exec) reflectStub(fn *ssa.Function, args []Val) (Val, bool) {
 	case "(*reflect.rtype).Comparable":
 		return cbool(types.Comparable(rt(args[0]))), true
 	case "(*reflect.rtype).NumMethod":
+		// an interface type counts all of its methods, any other type only the exported ones
+		if t := rt(args[0]); types.IsInterface(t) {
+			return cbv(64, uint64(x.w.prog.MethodSets.MethodSet(t).Len())), true
+		}
 		return cbv(64, uint64(len(x.methods(rt(args[0]))))), true
 	case "(*reflect.rtype).NumOut":
 		sig, ok := rt(args[0]).Underlying().(*types.Signature)
@@ -516,6 +520,30 @@ func (x *Exec) reflectStub(fn *ssa.Function, args []Val) (Val, bool) {
 			panic(panicV{msg: "reflect: call of reflect.Value.CanInterface on zero Value"})
 		}
 		return cbool(!r.ro()), true
+	case "(reflect.Value).Convert", "(reflect.Value).CanConvert":
+		// conversions between basic kinds (numeric widths, integer -> string as a code point, string <-> string,
+		// identical types): the SSA conversion semantics; anything else is not modelled
+		r := args[0].(RValV)
+		to := rt(args[1])
+		if r.T == nil {
+			panic(panicV{msg: "reflect: call of reflect.Value.Convert on zero Value"})
+		}
+		okc := types.ConvertibleTo(r.T, to)
+		if fn.Name() == "CanConvert" {
+			return cbool(okc), true
+		}
+		if !okc {
+			panic(panicV{msg: "reflect.Value.Convert: value of type " + r.T.String() + " cannot be converted to type " + to.String()})
+		}
+		_, fb := r.T.Underlying().(*types.Basic)
+		_, tb := to.Underlying().(*types.Basic)
+		if types.Identical(r.T, to) || (fb && tb) {
+			return RValV{T: to, V: x.convert(copyVal(r.val()), r.T, to), StickyRO: r.StickyRO, EmbedRO: r.EmbedRO}, true
+		}
+		if types.Identical(r.T.Underlying(), to.Underlying()) {
+			return RValV{T: to, V: copyVal(r.val()), StickyRO: r.StickyRO, EmbedRO: r.EmbedRO}, true
+		}
+		panic(unsupported{"reflect.Value.Convert from " + r.T.String() + " to " + to.String()})
 	case "(reflect.Value).Interface":
 		r := args[0].(RValV)
 		if r.T == nil {
